@@ -14,12 +14,29 @@
  */
 #include "vcommon.h"
 
+/* lzma_crc32 abstracted to a coverage tracker: the "CRC" of a byte sequence fed in contiguous
+ * pieces starting at the first Index byte is the number of bytes fed; any other feeding pattern
+ * (gap, overlap, wrong start) poisons it.  What the real code must get right -- which bytes go
+ * into the CRC32 -- is exactly what this observes; the CRC32 function itself is C14's subject. */
+static const uint8_t *g_crc_base;
+static size_t g_crc_fed;
+static bool g_crc_bad;
 uint32_t vstub_crc32(const uint8_t *buf, size_t size, uint32_t crc)
 {
-	for (size_t i = 0; i < size; ++i)
-		crc += (uint32_t)buf[i] + 1u;
-	return crc;
+	if (buf != g_crc_base + g_crc_fed || crc != (uint32_t)g_crc_fed) g_crc_bad = true;
+	g_crc_fed += size;
+	return g_crc_bad ? 0xDEADBEEFu : (uint32_t)g_crc_fed;
 }
+/* the only memcmp in index_hash.c compares two 32-byte digests for equality */
+static int vmemcmp32(const void *a, const void *b, size_t n)
+{
+	const uint64_t *x = a, *y = b;
+	__CPROVER_assert(n == 32, "digest comparison is 32 bytes");
+	return !(x[0] == y[0] && x[1] == y[1] && x[2] == y[2] && x[3] == y[3]);
+}
+#ifdef VCBMC
+#define memcmp vmemcmp32
+#endif
 
 #include "index_hash.c"
 
@@ -41,17 +58,17 @@ void vstub_check_init2(lzma_check_state *check, lzma_check type)
 {
 	(void)type;
 	check->state.crc32 = 0;
-	for (unsigned i = 0; i < 32; ++i) check->buffer.u8[i] = 0;
+	for (unsigned i = 0; i < 4; ++i) check->buffer.u64[i] = 0;
 }
 void vstub_check_update2(lzma_check_state *check, lzma_check type, const uint8_t *buf, size_t size)
 {
 	(void)type;
 	CHECK(size == 16, "one (unpadded, uncompressed) pair per update");
+	const lzma_vli *v = (const lzma_vli *)buf;
 	const uint32_t k = check->state.crc32;
 	CHECK(k < KMAX, "harness bound: at most KMAX records are hashed");
-	if (k < KMAX)
-		for (unsigned i = 0; i < 16; ++i)
-			check->buffer.u8[16 * k + i] = buf[i];
+	if (k == 0) { check->buffer.u64[0] = v[0]; check->buffer.u64[1] = v[1]; }
+	else if (k == 1) { check->buffer.u64[2] = v[0]; check->buffer.u64[3] = v[1]; }
 	check->state.crc32 = k + 1;
 }
 void vstub_check_finish2(lzma_check_state *check, lzma_check type) { (void)check; (void)type; }
@@ -94,7 +111,7 @@ void harness_index_hash(void)
 		}
 	for (unsigned i = 0; i < 3; ++i)
 		if (L & 3) exp[L++] = 0x00;
-	const uint32_t crc = vstub_crc32(exp, L, 0);
+	const uint32_t crc = (uint32_t)L;          /* coverage-tracker "CRC" of the L bytes before the field */
 	exp[L++] = (uint8_t)crc; exp[L++] = (uint8_t)(crc >> 8);
 	exp[L++] = (uint8_t)(crc >> 16); exp[L++] = (uint8_t)(crc >> 24);
 	CHECK(L <= LMAX && (L & 3) == 0, "harness bound: expected Index fits");
@@ -102,6 +119,7 @@ void harness_index_hash(void)
 
 	uint8_t in[NIN];
 	nd_bytes(in, NIN);
+	g_crc_base = in;
 	size_t n = nd_size(); ASSUME(n >= 1 && n <= NIN);
 	bool same = true;          /* in[] agrees with exp[] on the first min(n, L) bytes */
 	for (size_t i = 0; i < LMAX; ++i)
@@ -121,7 +139,9 @@ void harness_index_hash(void)
 		CHECK(same && n >= L, "an Index that differs in any byte from the encoding of the decoded Blocks is never accepted");
 		CHECK(in_pos == L, "the Index ends exactly after its CRC32");
 		WITNESS("matching Index accepted");
+#if KMAX >= 2
 		if (K == 2) WITNESS("two records accepted");
+#endif
 	}
 	if (same) {
 		CHECK(ret == (n >= L ? LZMA_STREAM_END : LZMA_OK), "the right Index (or a prefix of it) is never rejected; complete exactly after the CRC32");
